@@ -168,7 +168,7 @@ def http_part(ctx, out):
     forms, statuses, creds, methods = Counter(), Counter(), Counter(), Counter()
     distinct = set()
     seen_sig = set()
-    n_req = o_bypass = o_401 = o_public = 0
+    n_req = o_bypass = o_401 = o_public = o_abort = 0
     o_cfg = 0
     for i, line in enumerate(impl):
         if i >= len(ops) or not ops[i]:
@@ -217,6 +217,11 @@ def http_part(ctx, out):
             elif user != "user:" + owner:
                 o_bypass += 1
                 report("wrong-user", f"handler under /internal saw {user}, token owner is {owner}")
+        # O5 every request gets an HTTP answer: a connection that is aborted without a status line means the server
+        # panicked (net/http recovers per connection) — "every failure is answered 401"
+        if status <= 0:
+            o_abort += 1
+            report("connection-aborted", "no HTTP response (connection aborted: handler panic) instead of an answer")
         # O2 failures are 401 with no side effect: a 401 never comes with a handler run
         if status == 401 and ran_id is not None:
             o_401 += 1
@@ -228,9 +233,10 @@ def http_part(ctx, out):
     ctx.oblige("oracle:no-internal-handler-without-token(impl, raw TCP)", o_bypass == 0, f"{o_bypass} requests")
     ctx.oblige("oracle:401-has-no-effect(impl)", o_401 == 0, f"{o_401} requests")
     ctx.oblige("oracle:unknown-auth-type-or-bad-keys-file-is-an-error(impl)", o_cfg == 0, f"{o_cfg} configurations")
+    ctx.oblige("oracle:every-request-is-answered(impl)", o_abort == 0, f"{o_abort} aborted connections")
     ctx.oblige("oracle:internal-routes-never-on-public-listener(impl)", o_public == 0, f"{o_public} requests")
 
-    correspondence(ctx, "http", impl, model, bad, ops, o_bypass + o_401 + o_public + o_cfg)
+    correspondence(ctx, "http", impl, model, bad, ops, o_bypass + o_401 + o_public + o_cfg + o_abort)
     d = {"requests": n_req, "target_forms": dict(forms), "status": {str(k): v for k, v in sorted(statuses.items())},
          "credential_kinds": dict(creds), "methods": dict(methods), "other_differential_lines": len(impl) - n_req}
     ctx.cov["samples"] = [ops[1][:300] if len(ops) > 1 else "", impl[1][:100] if len(impl) > 1 else ""]
